@@ -4,6 +4,9 @@ package tbtc
 
 import (
 	"math/big"
+	"time"
+
+	"github.com/keep-network/keep-common/pkg/cache"
 
 	"github.com/keep-network/keep-core/pkg/internal/verifhook"
 )
@@ -19,6 +22,18 @@ type VerifC37Deduplicator struct{ d *deduplicator }
 // VerifC37NewDeduplicator calls newDeduplicator.
 func VerifC37NewDeduplicator() *VerifC37Deduplicator {
 	return &VerifC37Deduplicator{newDeduplicator()}
+}
+
+// VerifC37NewDeduplicatorWithPeriods builds the deduplicator over caches with
+// the given periods (the way the package's own tests do).
+func VerifC37NewDeduplicatorWithPeriods(
+	dkgSeed, dkgResultHash, walletClosed time.Duration,
+) *VerifC37Deduplicator {
+	return &VerifC37Deduplicator{&deduplicator{
+		dkgSeedCache:       cache.NewTimeCache(dkgSeed),
+		dkgResultHashCache: cache.NewTimeCache(dkgResultHash),
+		walletClosedCache:  cache.NewTimeCache(walletClosed),
+	}}
 }
 
 // NotifyDKGStarted calls notifyDKGStarted.
